@@ -238,6 +238,9 @@ class Module:
         self.path = path  # relative to repo root, e.g. pandera/config.py
         self.source = source
         self.tree = ast.parse(source, filename=path)
+        if os.environ.get("PVA_NO_NORMALIZE") != "1":
+            from .normalize import normalize_tree
+            self.normalized = normalize_tree(self.tree)
         name = path[:-3].replace("/", ".")
         if name.endswith(".__init__"):
             name = name[: -len(".__init__")]
